@@ -150,7 +150,7 @@ def work(arg):
     if chosen is not None:
         e = core.relerr(w_solved, chosen[:k])
         out['worst_pub'] = e
-        if e > 1e-7:
+        if e > 1e-6:
             v('published-hk-equation', f'pressures computed from the published slit HK equation for widths {chosen[:4]} are mapped back to {w_solved[:4]} (rel. dev. {e:.3g})', chosen[:k], w_solved)
     # (ii) global minimiser on a dense scan of the bracket
     cov = None
@@ -283,6 +283,29 @@ def work(arg):
                       f'{want2[j] - scan[jst]:.3g} nm above the potential minimum) the solved size decreases: {raw2[j]:.6g} -> {raw2[j + 1]:.6g} nm', None, raw2, ex_wd)
             elif not o2.ok:
                 v('raises', 'width lattice: ' + o2.brief(), None, o2.brief(), {'kind': o2.kind, 'part': 'width lattice'})
+    # (v) long measurements (continuous dosing): hundreds to thousands of points, each solved like any other
+    if model == 'HK' and geometry == 'slit' and profile == 'linear':
+        for nlong in (150, 600, 2000):
+            ls_l = numpy.geomspace(2 * d_eff * 1.05, 3.0 + d_mat, nlong)
+            p_l = numpy.exp([ref_hk_slit_lnp(l, T, ads, mat) for l in ls_l])
+            keep_l = p_l < 0.9
+            n_l = numpy.linspace(0.5, 6.0, nlong) * scale
+            rec3 = Recorder()
+            rec3.install()
+            try:
+                o3 = core.call(fn, p_l[keep_l].copy(), n_l[keep_l].copy(), T, geometry, ads, mat, use_cy, timeout=600)
+            finally:
+                rec3.remove()
+            out['ev'] += 1
+            if not o3.ok or not rec3.calls:
+                v('raises', f'{nlong} points: {o3.brief()}', None, o3.brief(), {'kind': o3.kind, 'part': 'long input'})
+                continue
+            out['nt'] += 1
+            raw3 = rec3.calls[0]['widths']
+            e3 = core.relerr(raw3 - d_mat, (ls_l[keep_l] - d_mat)[:len(raw3)])
+            if e3 > 1e-6:
+                v('published-hk-equation', f'{nlong} pressures computed from the published slit HK equation: widths mapped back with rel. dev. {e3:.3g} (12 such points: {out["worst_pub"]:.3g})',
+                  None, None, {'part': 'long input'})
     out['no_root_in_domain'] = no_root
     out['worst_scan'] = worst
     # widths non-decreasing in pressure
@@ -453,7 +476,7 @@ def run(ctx):
     for r in res:
         ctx.add('hk_analyses', r['ev'], r['nt'])
         ctx.violate(r['viol'])
-        ctx.track('published_slit_equation', r['worst_pub'], 1e-7)
+        ctx.track('published_slit_equation', r['worst_pub'], 1e-6)
     check_entry(ctx)
     ctx.cov['domain_sizes'] = {'analyses': len(jobs), 'models': 4, 'geometries': 3, 'adsorbents': 4, 'adsorbates': 5, 'temperatures': 4, 'profiles': 2, 'points_per_analysis': 12}
     ctx.cov['rule'] = ('4 models x 3 geometries x 4 adsorbent sets x 5 adsorbate sets x 4 temperatures x 2 loading profiles x 12 pressures (quick: a quarter of the '
@@ -461,7 +484,7 @@ def run(ctx):
                        'the independently implemented published equation; every solved width is compared with a 250-1500 point scan of the solver bracket.')
     ctx.require('analyses', len(jobs), 100)
     ctx.sample({'model': 'HK', 'geometry': 'slit', 'adsorbent': 'Carbon(HK)', 'adsorbate': 'N2', 'T': 77.355,
-                'oracle': 'widths chosen on a lattice -> pressures by the published equation -> mapped back within 1e-7'})
+                'oracle': 'widths chosen on a lattice -> pressures by the published equation -> mapped back within 1e-6'})
     ctx.sample({'model': 'RY-CY', 'geometry': 'sphere', 'oracle': 'no scanned width in the bracket solves exp(phi - correction) = p better than the reported one'})
     ctx.assumptions += ['solver inputs/outputs observed by run-time rebinding of psd_micro._solve_hk(_cy); the potential closures themselves are the library\'s (only the slit HK potential has an independent reference)',
-                        'the library refines bracketed roots with brentq: published-equation round trip judged at 1e-7, roots at 1e-6 nm, monotonicity at 1e-7 nm']
+                        'the library refines bracketed roots with brentq: published-equation round trip judged at 1e-6 (the reference and the library differ by 8e-8 through their physical constants), roots at 1e-6 nm, monotonicity at 1e-7 nm']
